@@ -3,6 +3,9 @@
    text: the 500-base margin, 1.5 x the average size, the 1/16 default minimum
    (2 * floor(avg / 32)), the 3/4 guard of the size clause. *)
 From CNV Require Import Base.Prelude Base.Str Model.IvRow Model.Access Model.Target Spec.Cover.
+From CNV Require Import Model.Chromsort Proofs.ChromsortLemmas.
+From CNV Require Spec.RangeQuery.
+Notation unique_scan := CNV.Spec.RangeQuery.unique_scan.
 
 (* base x of chromosome c lies in some row of the genome table t *)
 Definition gcovers (t : list grow) (c : string) (x : Z) : Prop := covers (filter (on c) t) x.
@@ -78,3 +81,61 @@ Definition default_min_spec (avg : Q) (m : Z) : Prop :=
 
 (* (chromosome, start, end) of a row *)
 Definition coords (r : grow) : string * Z * Z := (chrom r, lo r, hi r).
+
+(* ---- order across chromosomes ----------------------------------------------------
+   GenomicArray.sort orders rows by (sorter_chrom(chromosome), start, end); the key of a
+   row is Model.Chromsort.chrom_key of its chromosome name. *)
+Definition ckey (r : grow) : Z * string := chrom_key (chrom r).
+Definition key_le (a b : grow) : Prop := ckey_leb (ckey a) (ckey b) = true.
+
+(* chromosome keys never decrease along the table *)
+Definition key_sorted (t : list grow) : Prop := StronglySorted key_le t.
+
+(* genomic order of non-overlapping bins: an earlier row has a smaller chromosome key, or
+   lies on the same chromosome entirely before the later one *)
+Definition genomic_before (a b : grow) : Prop :=
+  ckey_ltb (ckey a) (ckey b) = true \/ (chrom a = chrom b /\ hi a <= lo b).
+Definition genomic_sorted (t : list grow) : Prop := StronglySorted genomic_before t.
+
+(* distinct chromosome names of the table have distinct sort keys (false e.g. of a table
+   that mixes "chr1" and "1") *)
+Definition key_injective (t : list grow) : Prop :=
+  forall a b, In a t -> In b t -> ckey a = ckey b -> chrom a = chrom b.
+
+(* the table as GenomicArray.sort leaves it: sorted by (key, start, end) *)
+Definition genome_sorted (t : list grow) : Prop := regions_sorted coords t.
+
+(* ---- sizes --------------------------------------------------------------------------
+   the strengthened cut-point contract: besides lying within one base below the exact cut
+   point, a cut is exact when the region divides evenly (i * (span / n) is then computed
+   without rounding error in floating point as long as span < 2^53) *)
+Definition cut_contract_exact (span n : Z) (cut : Z -> Z) : Prop :=
+  cut_contract span n cut /\ (span mod n = 0 -> forall i, 1 <= i < n -> cut i = i * (span / n)).
+
+(* ---- number of bins in floating point ------------------------------------------------
+   q' (the float quotient span / avg) is a monotone rounding of the exact q that leaves the
+   half-integers fixed: it never crosses a tie *)
+Definition half (k : Z) : Q := inject_Z k + (1 # 2).
+Definition rounding_of (q q' : Q) : Prop :=
+  forall k : Z, (q <= half k -> q' <= half k)%Q /\ (half k <= q -> half k <= q')%Q.
+Definition is_tie (q : Q) : Prop := exists k : Z, (q == half k)%Q.
+
+(* ---- label shortening ---------------------------------------------------------------------
+   the choice `min(names, key=len)` makes among equally short names of a Python set (first in
+   the set's iteration order): all that is known is that it returns one of the names it is given *)
+Definition pick_ok (pick : list string -> string) : Prop := forall l, l <> [] -> In (pick l) l.
+
+(* filter_names' exclude list: names starting with "mRNA" are the less meaningful ones *)
+Definition not_mrna (n : string) : bool := negb (str_prefix "mRNA" n).
+
+(* ---- annotation -------------------------------------------------------------------------
+   the label annotation gives a bin: "-" when no annotation row overlaps it, otherwise the
+   distinct names of the overlapping rows, in table order of first appearance, joined by "," *)
+Definition overlapping (annot : list grow) (b : grow) : list grow :=
+  filter (fun a => on (chrom b) a && ((lo a <? hi b) && (lo b <? hi a))) annot.
+
+Definition annot_label (annot : list grow) (b : grow) : string :=
+  match overlapping annot b with
+  | [] => "-"%string
+  | hits => String.concat "," (unique_scan (map gene hits))
+  end.
